@@ -211,6 +211,297 @@ theorem tiling_prev (size orphan overlap : Int) (s : Seq)
       have : start = 1 := by omega
       simp [this, Linked]
 
+/-! ### The batch lists `next-batches` / `previous-batches` -/
+
+/-- **The loops of the model are the loops of the source**: `GenCode.nextBatchesGen` / `prevBatchesGen` are regenerated on
+every run from the `while` loops of `sequence_variables.next_batches` / `previous_batches` (the loop test, `current = …`,
+the `opt(…)` call, the `break` test, the three fields stored for every listed batch); started from the variables the
+prologue loads (`l_ = len(sequence)`), they compute the hand-written `Batch.nextBatches` / `Batch.prevBatchesRev`. -/
+theorem gen_next_batches_is_model (sz orphan overlap : Int) (s : Seq) :
+    ∀ (fuel : Nat) (start end_ cur spam : Int),
+    GenCode.nextBatchesGen s fuel ⟨start, end_, sz, orphan, overlap, s.len, cur, spam⟩ =
+      nextBatches sz orphan overlap s fuel end_ := by
+  intro fuel
+  induction fuel with
+  | zero => intros; rfl
+  | succ n ih =>
+    intro start end_ cur spam
+    simp only [GenCode.nextBatchesGen, nextBatches, gen_opt_is_model]
+    split
+    · split
+      · rfl
+      · rw [ih]
+    · rfl
+
+theorem gen_previous_batches_is_model (sz orphan overlap : Int) (s : Seq) :
+    ∀ (fuel : Nat) (start end_ l cur spam : Int),
+    GenCode.prevBatchesGen s fuel ⟨start, end_, sz, orphan, overlap, l, cur, spam⟩ =
+      prevBatchesRev sz orphan overlap s fuel start := by
+  intro fuel
+  induction fuel with
+  | zero => intros; rfl
+  | succ n ih =>
+    intro start end_ l cur spam
+    simp only [GenCode.prevBatchesGen, prevBatchesRev, gen_opt_is_model]
+    split
+    · split
+      · rfl
+      · rw [ih]
+    · rfl
+
+/-- **The lists start from the window that is being displayed**: both methods load `sz`, `start`, `end`, `orphan`,
+`overlap` from the `sequence-step-…` variables (which `renderwb` sets from the window it computed) and `next_batches`
+takes `l_ = len(sequence)` — extracted from /repo's source on every run. -/
+theorem gen_batch_list_inputs :
+    GenCode.next_batches_inputs = [("sz", "sequence-step-size"), ("start", "sequence-step-start"),
+      ("end", "sequence-step-end"), ("l_", "len(sequence)"), ("orphan", "sequence-step-orphan"),
+      ("overlap", "sequence-step-overlap")] ∧
+    GenCode.previous_batches_inputs = [("sz", "sequence-step-size"), ("start", "sequence-step-start"),
+      ("end", "sequence-step-end"), ("orphan", "sequence-step-orphan"), ("overlap", "sequence-step-overlap")] := by
+  decide
+
+/-- **Listing terminates**, for every parameter tuple (also `overlap ≥ size`, negative numbers, lazy sequences): once the
+fuel covers the distance to the end of the sequence, more fuel never changes the list — the `while` loop of the source
+has stopped by then (every iteration moves `end` strictly towards `len`, or breaks). -/
+theorem next_batches_fuel (sz orphan overlap : Int) (s : Seq) :
+    ∀ (fuel : Nat) (end_ : Int), s.len - end_ ≤ fuel →
+    nextBatches sz orphan overlap s (fuel + 1) end_ = nextBatches sz orphan overlap s fuel end_ := by
+  intro fuel
+  induction fuel with
+  | zero =>
+    intro end_ h
+    simp only [nextBatches]
+    have : ¬ end_ < s.len := by omega
+    simp [this]
+  | succ n ih =>
+    intro end_ h
+    conv => lhs; rw [nextBatches]
+    conv => rhs; rw [nextBatches]
+    split
+    · simp only
+      split
+      · rfl
+      · rename_i h1 h2
+        rw [ih _ (by omega)]
+    · rfl
+
+theorem previous_batches_fuel (sz orphan overlap : Int) (s : Seq) :
+    ∀ (fuel : Nat) (start : Int), start - 1 ≤ fuel →
+    prevBatchesRev sz orphan overlap s (fuel + 1) start = prevBatchesRev sz orphan overlap s fuel start := by
+  intro fuel
+  induction fuel with
+  | zero =>
+    intro start h
+    simp only [prevBatchesRev]
+    have : ¬ start > 1 := by omega
+    simp [this]
+  | succ n ih =>
+    intro start h
+    conv => lhs; rw [prevBatchesRev]
+    conv => rhs; rw [prevBatchesRev]
+    split
+    · simp only
+      split
+      · rfl
+      · rename_i h1 h2
+        rw [ih _ (by omega)]
+    · rfl
+
+/-- The first batch of `next-batches` is the batch the links announce (`next-sequence-start-number` /
+`next-sequence-end-number`), the nearest batch of `previous-batches` the announced previous one. -/
+theorem batch_lists_start_at_links (st e sz orphan overlap : Int) (s : Seq) (fuel : Nat)
+    (h1 : 1 ≤ st) (h2 : st ≤ e) (h3 : e ≤ s.len) (hs : 1 ≤ sz) (ho : 0 ≤ orphan) (hov : 0 ≤ overlap)
+    (hlt : overlap < sz) (hw : e = s.len ∨ st + sz - 1 ≤ e) :
+    let l := links st e sz orphan overlap s
+    (e < s.len → (nextBatches sz orphan overlap s (fuel + 1) e).head? =
+        some (l.nextStart - 1, l.nextEnd - 1, l.nextEnd + 1 - l.nextStart)) ∧
+    (1 < st → (prevBatchesRev sz orphan overlap s (fuel + 1) st).head? =
+        some (l.prevStart - 1, l.prevEnd - 1, l.prevEnd + 1 - l.prevStart)) := by
+  simp only [links, nextBatches, prevBatchesRev]
+  constructor
+  · intro he
+    have : (opt (e + 1 - overlap) 0 sz orphan s).2.1 > e := by
+      simp only [opt, probe]; grind
+    simp [he]
+    split
+    · omega
+    · simp
+  · intro hst
+    have : (opt 0 (st - 1 + overlap) sz orphan s).1 < st := by
+      simp only [opt, probe]; grind
+    simp [hst]
+    split
+    · omega
+    · simp
+
+private theorem nb_step (e sz orphan overlap : Int) (s : Seq)
+    (h1 : 1 ≤ e) (h2 : e < s.len) (hs : 1 ≤ sz) (ho : 0 ≤ orphan) (hov : 0 ≤ overlap) (hlt : overlap < sz)
+    (hoe : overlap < e) :
+    let o := opt (e + 1 - overlap) 0 sz orphan s
+    o.1 = e + 1 - overlap ∧ e < o.2.1 ∧ o.2.1 ≤ s.len ∧ (o.2.1 = s.len ∨ o.2.1 = o.1 + sz - 1) := by
+  simp only [opt, probe]
+  grind
+
+private theorem next_batches_spec (sz orphan overlap : Int) (s : Seq)
+    (hs : 1 ≤ sz) (ho : 0 ≤ orphan) (hov : 0 ≤ overlap) (hlt : overlap < sz) :
+    ∀ (fuel : Nat) (e : Int), 1 ≤ e → overlap < e → e ≤ s.len → s.len - e ≤ fuel →
+    let bs := nextBatches sz orphan overlap s fuel e
+    (e < s.len → bs.head?.map (·.1) = some (e - overlap)) ∧
+    (e < s.len → bs.getLast?.map (·.2.1) = some (s.len - 1)) ∧
+    (e = s.len → bs = []) ∧
+    Linked (fun a b => b.1 = a.2.1 + 1 - overlap ∧ a.2.1 < b.2.1) bs ∧
+    (∀ b ∈ bs, 0 ≤ b.1 ∧ b.1 ≤ b.2.1 ∧ b.2.1 ≤ s.len - 1 ∧ e - overlap ≤ b.1 ∧ e ≤ b.2.1 ∧ b.2.2 = b.2.1 - b.1 + 1) := by
+  intro fuel
+  induction fuel with
+  | zero =>
+    intro e h1 hoe h3 hf
+    have : e = s.len := by omega
+    simp [nextBatches, Linked, this]
+  | succ n ih =>
+    intro e h1 hoe h3 hf
+    simp only [nextBatches]
+    by_cases he : e < s.len
+    · have hst := nb_step e sz orphan overlap s h1 he hs ho hov hlt hoe
+      simp only [he, if_true]
+      generalize opt (e + 1 - overlap) 0 sz orphan s = o at hst ⊢
+      obtain ⟨o1, o2, o3, o4⟩ := hst
+      have hno : ¬ o.2.1 ≤ e := by omega
+      simp only [hno, if_false]
+      have ihh := ih o.2.1 (by omega) (by omega) o3 (by omega)
+      obtain ⟨i1, i2, i3, i4, i5⟩ := ihh
+      generalize nextBatches sz orphan overlap s n o.2.1 = rest at i1 i2 i3 i4 i5 ⊢
+      cases rest with
+      | nil =>
+        have : o.2.1 = s.len := by
+          by_cases hh : o.2.1 < s.len
+          · have := i2 hh; simp at this
+          · omega
+        refine ⟨fun _ => by simp [o1]; omega, fun _ => by simp [List.getLast?, this], fun h => by omega, trivial, ?_⟩
+        intro b hb
+        have hb := List.mem_singleton.mp hb
+        subst hb; simp only; omega
+      | cons r rs =>
+        have hh : o.2.1 < s.len := by
+          by_cases hh : o.2.1 < s.len
+          · exact hh
+          · have := i3 (by omega); simp at this
+        have hr := i1 hh
+        simp only [List.head?, Option.map, Option.some.injEq] at hr
+        have h5 := i5 r List.mem_cons_self
+        refine ⟨fun _ => by simp [o1]; omega, fun _ => by simpa [List.getLast?] using i2 hh, fun h => by omega,
+          ⟨⟨by simp only [hr]; omega, by simp only; omega⟩, i4⟩, ?_⟩
+        intro b hb
+        rcases List.mem_cons.mp hb with hb | hb
+        · subst hb; simp only; omega
+        · have := i5 b hb; omega
+    · have : e = s.len := by omega
+      simp [he, Linked, this]
+
+/-- **`next-batches` tiles the rest of the sequence.**  For `0 ≤ overlap < size`, read on a displayed window ending at
+`e`: the listed batches start `overlap` elements before `e`'s successor, each next one starts exactly `overlap` elements
+before the end of the one before it, ends strictly move forward, the last one ends with the last element, every listed
+batch lies inside the sequence with `batch-size = end − start + 1`; nothing is listed when the window already ends the
+sequence.  (0-based indexes, as `batch-start-index` / `batch-end-index` are.) -/
+theorem next_batches_tile (sz orphan overlap : Int) (s : Seq) (fuel : Nat) (e : Int)
+    (hs : 1 ≤ sz) (ho : 0 ≤ orphan) (hov : 0 ≤ overlap) (hlt : overlap < sz)
+    (h1 : 1 ≤ e) (hoe : overlap < e) (h3 : e ≤ s.len) (hf : s.len - e ≤ fuel) :
+    let bs := nextBatches sz orphan overlap s fuel e
+    (e < s.len → bs.head?.map (·.1) = some (e - overlap)) ∧
+    (e < s.len → bs.getLast?.map (·.2.1) = some (s.len - 1)) ∧
+    (e = s.len → bs = []) ∧
+    Linked (fun a b => b.1 = a.2.1 + 1 - overlap ∧ a.2.1 < b.2.1) bs ∧
+    (∀ b ∈ bs, 0 ≤ b.1 ∧ b.1 ≤ b.2.1 ∧ b.2.1 ≤ s.len - 1 ∧ e - overlap ≤ b.1 ∧ e ≤ b.2.1 ∧ b.2.2 = b.2.1 - b.1 + 1) :=
+  next_batches_spec sz orphan overlap s hs ho hov hlt fuel e h1 hoe h3 hf
+
+private theorem pb_step (st sz orphan overlap : Int) (s : Seq)
+    (h1 : 1 < st) (h2 : st ≤ s.len) (hs : 1 ≤ sz) (ho : 0 ≤ orphan) (hov : 0 ≤ overlap) (hlt : overlap < sz) :
+    let o := opt 0 (st - 1 + overlap) sz orphan s
+    1 ≤ o.1 ∧ o.1 < st ∧ o.1 ≤ o.2.1 ∧ o.2.1 = min s.len (st - 1 + overlap) ∧
+      (o.1 = 1 ∨ o.1 = o.2.1 + 1 - sz) := by
+  simp only [opt, probe]
+  grind
+
+private theorem prev_batches_spec (sz orphan overlap : Int) (s : Seq)
+    (hs : 1 ≤ sz) (ho : 0 ≤ orphan) (hov : 0 ≤ overlap) (hlt : overlap < sz) :
+    ∀ (fuel : Nat) (st : Int), 1 ≤ st → st ≤ s.len → st - 1 ≤ fuel →
+    let bs := prevBatchesRev sz orphan overlap s fuel st
+    (1 < st → bs.head?.map (·.2.1) = some (min s.len (st - 1 + overlap) - 1)) ∧
+    (1 < st → bs.getLast?.map (·.1) = some 0) ∧
+    (st = 1 → bs = []) ∧
+    Linked (fun a b => b.2.1 = min s.len (a.1 + overlap) - 1 ∧ b.1 < a.1) bs ∧
+    (∀ b ∈ bs, 0 ≤ b.1 ∧ b.1 ≤ b.2.1 ∧ b.2.1 ≤ s.len - 1 ∧ b.1 < st - 1 ∧ b.2.2 = b.2.1 - b.1 + 1) := by
+  intro fuel
+  induction fuel with
+  | zero =>
+    intro st h1 h2 hf
+    have : st = 1 := by omega
+    simp [prevBatchesRev, Linked, this]
+  | succ n ih =>
+    intro st h1 h2 hf
+    simp only [prevBatchesRev]
+    by_cases hst : st > 1
+    · have hp := pb_step st sz orphan overlap s hst h2 hs ho hov hlt
+      simp only [hst, if_true]
+      generalize opt 0 (st - 1 + overlap) sz orphan s = o at hp ⊢
+      obtain ⟨p1, p2, p3, p4, p5⟩ := hp
+      have hno : ¬ o.1 ≥ st := by omega
+      simp only [hno, if_false]
+      have ihh := ih o.1 p1 (by omega) (by omega)
+      obtain ⟨i1, i2, i3, i4, i5⟩ := ihh
+      generalize prevBatchesRev sz orphan overlap s n o.1 = rest at i1 i2 i3 i4 i5 ⊢
+      cases rest with
+      | nil =>
+        have : o.1 = 1 := by
+          by_cases hh : 1 < o.1
+          · have := i2 hh; simp at this
+          · omega
+        refine ⟨fun _ => by simp [p4], fun _ => by simp [List.getLast?, this], fun h => by omega, trivial, ?_⟩
+        intro b hb
+        have hb := List.mem_singleton.mp hb
+        subst hb; simp only; omega
+      | cons r rs =>
+        have hh : 1 < o.1 := by
+          by_cases hh : 1 < o.1
+          · exact hh
+          · have := i3 (by omega); simp at this
+        have hr := i1 hh
+        simp only [List.head?, Option.map, Option.some.injEq] at hr
+        have h5 := i5 r List.mem_cons_self
+        refine ⟨fun _ => by simp [p4], fun _ => by simpa [List.getLast?] using i2 hh, fun h => by omega,
+          ⟨⟨by first | (simp only [hr]; omega) | simp only [hr], by simp only; omega⟩, i4⟩, ?_⟩
+        intro b hb
+        rcases List.mem_cons.mp hb with hb | hb
+        · subst hb; simp only; omega
+        · have := i5 b hb; omega
+    · have : st = 1 := by omega
+      simp [hst, Linked, this]
+
+/-- **`previous-batches` tiles the beginning of the sequence.**  For `0 ≤ overlap < size`, read on a displayed window
+starting at `st`: going backwards, the nearest batch ends `overlap` elements after `st`'s predecessor (clamped to the
+sequence), each further one ends exactly `overlap` elements after the predecessor of the start of the one after it,
+starts strictly move backwards, the farthest one starts with the first element, every listed batch lies inside the
+sequence; nothing is listed for a window that starts the sequence.  (`Batch.prevBatches` is this list reversed, the order
+the variable has.) -/
+theorem previous_batches_tile (sz orphan overlap : Int) (s : Seq) (fuel : Nat) (st : Int)
+    (hs : 1 ≤ sz) (ho : 0 ≤ orphan) (hov : 0 ≤ overlap) (hlt : overlap < sz)
+    (h1 : 1 ≤ st) (h2 : st ≤ s.len) (hf : st - 1 ≤ fuel) :
+    let bs := prevBatchesRev sz orphan overlap s fuel st
+    (1 < st → bs.head?.map (·.2.1) = some (min s.len (st - 1 + overlap) - 1)) ∧
+    (1 < st → bs.getLast?.map (·.1) = some 0) ∧
+    (st = 1 → bs = []) ∧
+    Linked (fun a b => b.2.1 = min s.len (a.1 + overlap) - 1 ∧ b.1 < a.1) bs ∧
+    (∀ b ∈ bs, 0 ≤ b.1 ∧ b.1 ≤ b.2.1 ∧ b.2.1 ≤ s.len - 1 ∧ b.1 < st - 1 ∧ b.2.2 = b.2.1 - b.1 + 1) :=
+  prev_batches_spec sz orphan overlap s hs ho hov hlt fuel st h1 h2 hf
+
+/-- `overlap ≥ size`: the batches do not move, so none is listed (the repaired behaviour: before fixes `b50233a` /
+`3037250` these loops never ended). -/
+theorem batch_lists_stuck_overlap :
+    nextBatches 2 0 2 ⟨9, false⟩ 20 3 = [] ∧ prevBatchesRev 2 0 2 ⟨9, false⟩ 20 5 = [] := by decide
+
+/-- Non-vacuity: 10 elements, size 3, overlap 1, orphan 1, the window 4..6 being displayed. -/
+example : nextBatches 3 1 1 ⟨10, false⟩ 10 6 = [(5, 7, 3), (7, 9, 3)] := by decide
+example : prevBatches 3 1 1 ⟨10, false⟩ 10 4 = [(0, 1, 2), (1, 3, 3)] := by decide
+
 /-- Non-vacuity: a concrete batch run (7 elements, size 3, overlap 1, orphan 1). -/
 example : follow 3 1 1 ⟨7, false⟩ 7 1 = [(1, 3), (3, 5), (5, 7)] := by decide
 example : followPrev 3 1 1 ⟨7, false⟩ 7 5 = [5, 3, 1] := by decide
